@@ -36,7 +36,7 @@ def run(ctx):
         if rc != 0:
             res.violation("regression input fails again: %s: %s" % (os.path.basename(f), common.crash_head(out) or out[:300]), None, f)
     n = 1500                        # per process; rapidcheck slows down super-linearly, so many short runs
-    jobs = common.NCPU * ctx.pick(16, 600)
+    jobs = common.NCPU * ctx.pick(16, 96)
     work = os.path.join(common.ROOT, "work", "c08-%d" % os.getpid())
     os.makedirs(work, exist_ok=True)
 
